@@ -43,6 +43,10 @@ func init() {
     choice ch { case ca { leaf ca1 { type string; } } case cb { container cb1 { leaf x { type string; } } } } }
   list l { key k; leaf k { type string; } leaf v { type int32; default 3; } uses g; list n { key j; leaf j { type int32; } leaf u { type string; } } }
   leaf-list ll { type string; }
+  // a chain of whens: evaluating the last one evaluates the ten before it, nested (the library allows 16 levels)
+  leaf k1 { type int32; } leaf k2 { when "../k1>0"; type int32; } leaf k3 { when "../k2>0"; type int32; } leaf k4 { when "../k3>0"; type int32; }
+  leaf k5 { when "../k4>0"; type int32; } leaf k6 { when "../k5>0"; type int32; } leaf k7 { when "../k6>0"; type int32; } leaf k8 { when "../k7>0"; type int32; }
+  leaf k9 { when "../k8>0"; type int32; } leaf k10 { when "../k9>0"; type int32; } leaf k11 { when "../k10>0"; type int32; }
 }`
 	eng.Register(&c20{base{id: "C20", level: "model_checking", sub: true,
 		rule: "part schedules: every unordered pair (thorough: also triples) of operations from the alphabet {load a module with uses and imports, JSON export, XML export, upsert from JSON, Find with query + export, delete, constrain + read, set value} runs as threads that share one compiled module but own their data; a cooperative scheduler with scheduling points at every node callback, output-stream write, opener call and reader Read explores every interleaving with at most 2 (thorough 3) preemptions; each thread's observable result (output, error, final store, dump of the module it loaded) must equal its solo result, the shared module's deep structural hash (unexported fields included) must be unchanged, and a prefix replay must reproduce its decision points. part immutability: the deep hash is compared before/after every single operation and every ordered pair run sequentially. part race: the same thread bodies run free on real goroutines in a -race build (GOMAXPROCS 1, 2 and all CPUs, repeated); any report of the race detector is a violation. states = distinct schedules, transitions = executions. Non-trivial = schedule with at least one preemption"}})
@@ -102,7 +106,7 @@ func (p *c20) Cases(tier string, emit func(interface{})) {
 }
 
 // string values hold characters every writer has to escape (quote, backslash, markup, control, non-ASCII)
-const c20Data = `{"top":"t\"q\\b<&>\u00e9\n\u2028","c":{"gl":5,"gc":{"gx":"abc"},"idr":"id-b","e":"two","w":"shown","ca1":"x","un":5,"bits":"x","lr":"two","dec":1.5,"em":[null],"bin":"AQID","u64":"18446744073709551615","les":["one","two"],"ux":"p1","uy":"r1"},"l":[{"k":"a","v":1,"gl":9,"n":[{"j":1,"u":"a"},{"j":2,"u":"b"}]},{"k":"b","gc":{"gx":"z"}}],"ll":["p","q\"<\u00e9>"]}`
+const c20Data = `{"top":"t\"q\\b<&>\u00e9\n\u2028","c":{"gl":5,"gc":{"gx":"abc"},"idr":"id-b","e":"two","w":"shown","ca1":"x","un":5,"bits":"x","lr":"two","dec":1.5,"em":[null],"bin":"AQID","u64":"18446744073709551615","les":["one","two"],"ux":"p1","uy":"r1"},"l":[{"k":"a","v":1,"gl":9,"n":[{"j":1,"u":"a"},{"j":2,"u":"b"}]},{"k":"b","gc":{"gx":"z"}}],"ll":["p","q\"<\u00e9>"],"k1":1,"k2":2,"k3":3,"k4":4,"k5":5,"k6":6,"k7":7,"k8":8,"k9":9,"k10":10,"k11":11}`
 
 const c20LoadText = `module ld { yang-version 1.1; namespace "urn:ld"; prefix ld; import dep { prefix d; } include sub; revision 0;
   feature f; grouping g { leaf a { type d:dt; } container c { leaf b { type string; } } }
